@@ -100,7 +100,12 @@ Section Step.
       | None =>
         match assoc name (e_progs E) with
         | Some c => rs E c true dcur
-        | None => mret (VErr (EBinding name))
+        | None =>
+            (* while the compiler folds constants (no clock) an unbound name ends the evaluation *)
+            match e_now E with
+            | None => mfail (EBinding name)
+            | Some _ => mret (VErr (EBinding name))
+            end
         end
       end
     end.
